@@ -42,7 +42,7 @@ PLANS = {
     "C07": P("exploration", SEM, 36000, 600, SEM + ["mid", "host"], 280000, 1200),
     "C08": P("exploration", SEM, 60000, 900, SEM + ["host", "host-nosse"], 480000, 1700),
     "C09": P("exploration", SEM, 32000, 500, SEM + ["mid", "host"], 250000, 900),
-    "C10": P("exploration", WRAP, 1500, 400, WRAP, 15000, 800),
+    "C10": P("exploration", WRAP, 2500, 400, WRAP, 15000, 800),
     "C11": P("exploration", STRICT4, 10000, 400, STRICT4, 80000, 800, strict=True, san_to_stderr=True),
     "C13": P("exploration", ["small", "small-nosse", "mid"], 48000, 500, ["small", "small-nosse", "mid", "host"], 380000, 1200, shards=15),
     "C14": P("exploration", WRAP, 1500, 100, WRAP + ["small-ts-wrap-strict"], 15000, 100),
@@ -211,10 +211,18 @@ def generic_check(prop, tier, seed, plan=None, binaries=None, extra_args=None, s
         if plan.get("san_to_stderr"):
             env["ASAN_OPTIONS"] = re.sub(r":log_path=[^:]*", "", env["ASAN_OPTIONS"])
             env["UBSAN_OPTIONS"] = re.sub(r":log_path=[^:]*", "", env["UBSAN_OPTIONS"])
-        r = subprocess.run(j["cmd"], stdout=subprocess.PIPE, stderr=subprocess.PIPE, env=env)
-        j["rc"] = r.returncode
-        j["stdout"] = r.stdout.decode(errors="replace")
-        j["stderr"] = r.stderr.decode(errors="replace")[-4000:]
+        # watchdog: a shard that exceeds its (generous) wall-clock budget is killed; the recipe it was executing is then
+        # replayed under a per-case limit - only a reproducible hang of that single case is reported
+        budget = plan.get("shard_timeout", 600 if tier == "quick" else 14400)
+        try:
+            r = subprocess.run(j["cmd"], stdout=subprocess.PIPE, stderr=subprocess.PIPE, env=env, timeout=budget)
+            j["rc"] = r.returncode
+            j["stdout"] = r.stdout.decode(errors="replace")
+            j["stderr"] = r.stderr.decode(errors="replace")[-4000:]
+        except subprocess.TimeoutExpired as te:
+            j["rc"] = -999
+            j["stdout"] = ""
+            j["stderr"] = "shard exceeded its wall-clock budget of %d s and was killed" % budget
         return j
 
     with ThreadPoolExecutor(vbuild.JOBS) as pool:
@@ -251,8 +259,12 @@ def generic_check(prop, tier, seed, plan=None, binaries=None, extra_args=None, s
             case = ""
             if os.path.exists(j["journal"]):
                 case = open(j["journal"]).read().strip()
-            msg = "process died rc=%s: %s" % (j["rc"], (j["stderr"] or "")[-600:].replace("\n", " | "))
-            merged["failures"].append(dict(kind="crash", cfg=j["cfg"], case=case, msg=msg))
+            if j["rc"] == -999:
+                msg = "hang: " + j["stderr"]
+                merged["failures"].append(dict(kind="hang", cfg=j["cfg"], case=case, msg=msg))
+            else:
+                msg = "process died rc=%s: %s" % (j["rc"], (j["stderr"] or "")[-600:].replace("\n", " | "))
+                merged["failures"].append(dict(kind="crash", cfg=j["cfg"], case=case, msg=msg))
     merged["wall"] = time.time() - t0
     merged["binaries"] = binaries
     return merged
@@ -266,7 +278,10 @@ def confirm(prop, fail, binaries, strict=False, extra_env=None, runs=3, need=2):
     hits = 0
     last = ""
     for _ in range(runs):
-        st, out = run_replay(binaries[fail["cfg"]], p, strict, extra_env=extra_env)
+        st, out = run_replay(binaries[fail["cfg"]], p, strict, extra_env=extra_env,
+                             timeout=300 if fail.get("kind") == "hang" else 900)
+        if fail.get("kind") == "hang" and st == "pass":
+            break  # the single case terminates: the shard was merely slow (inconclusive, not a violation)
         last = out
         if st in ("fail", "crash", "timeout"):
             hits += 1
